@@ -157,7 +157,7 @@ def run_trace_validation(prop, tier, seed, scratch, cov, violations, stages=(("s
         summ = scratch.path("heap-trace-%s.json" % tag)
         nkeys = 4
         if kind == "std":
-            args = ["-programs", "30" if q else "400", "-steps", "80" if q else "150", "-bigprograms", "4" if q else "40", "-bigsteps", "24" if q else "60"]
+            args = ["-programs", "60" if q else "400", "-steps", "80" if q else "150", "-bigprograms", "8" if q else "40", "-bigsteps", "30" if q else "60"]
         elif kind == "scen":
             args = ["-programs", "2", "-steps", "30", "-bigprograms", "0", "-scenarios"]
         else:
